@@ -7,7 +7,10 @@ import itertools
 RULE = ("exhaustive: every scripted chain over {Accept,Neutral,Reject} of length <= 4 on one appender x "
         "fails/succeeds x 5 record levels x 3 node levels; every threshold level x record level inside a "
         "chain, also with the crate's ThresholdFilter attached directly (not behind the recording wrapper) at every "
-        "position among scripted filters, and for a third of the chains on an appender supplied as a log::Log value "
+        "position among scripted filters; every 7th (thorough: 2nd) plain case also DECLARED IN A CONFIGURATION FILE "
+        "(YAML -> RawConfig::appenders_lossy; recording kinds registered through Deserializers::insert, half of "
+        "them with the kind `threshold` registered again by the harness: the last registration is the one "
+        "used); and for a third of the chains on an appender supplied as a log::Log value "
         "whose own enabled() refuses everything (blanket Append impl); then random fan-outs of 1-4 appenders (chains <= 5 incl. threshold filters, random "
         "failing flags, attachment lists with repeats); then HISTORIES: random call trees (depth <= 3, <= 2 "
         "nested calls per call, 1-3 top-level calls) over 1-3 appenders and 1-3 nodes in which an appender "
@@ -64,6 +67,15 @@ def cases(rng, tier):
             apps.append([rng.choice([0, 0, 1, 1, 2]), fs])      # 2: supplied as a log::Log whose enabled() says no
         att = [rng.below(na) for _ in range(rng.below(6))]
         out.append([rng.choice([0, 1, 2, 3, 4, 5, 5, 5]), rng.range(1, 5 + 0), apps, att])
+    # the same plain cases DECLARED IN A CONFIGURATION FILE (YAML text -> RawConfig::appenders_lossy with the
+    # scripted filter / recording appender kinds registered by the harness); with override = 1 the harness
+    # registers its own recording `threshold` kind over the built-in one (the kind registered last is used)
+    plain = [c for c in out if len(c) == 4]
+    step = 7 if tier == "quick" else 2
+    for j, c in enumerate(plain[::step]):
+        over = j % 2
+        apps = [[f, [[1, x[1]] if x[0] == 2 else x for x in fs]] for f, fs in c[2]]
+        out.append([c[0], c[1], apps, c[3], over, 0])
     out.extend(_fixed_histories())
     n_hist = 2500 if tier == "quick" else 40000
     for _ in range(n_hist):
@@ -139,10 +151,17 @@ def _history(rng):
     return [1, apps, nodes, calls, mode]
 
 
+def _is_file(c):
+    return len(c) == 6
+
+
 def _raw(c):
-    """positions (app, k) of directly attached threshold filters in a plain case"""
+    """positions (app, k) of threshold filters whose consultations are not recorded: attached directly (kind 2),
+    or the built-in `threshold` kind of a file-declared case without the harness's override"""
     if _is_hist(c):
         return set()
+    if _is_file(c) and not c[4]:
+        return {(i, k) for i, (f, fs) in enumerate(c[2]) for k, x in enumerate(fs) if x[0] in (1, 2)}
     return {(i, k) for i, (f, fs) in enumerate(c[2]) for k, x in enumerate(fs) if x[0] == 2}
 
 
@@ -151,10 +170,10 @@ def model_lines(ctx, cases, lines, impl_lines):
     vc = ctx["vc"]
     out = []
     for c, ln in zip(cases, lines):
-        if not _is_hist(c) and (_raw(c) or any(f == 2 for f, fs in c[2])):
+        if not _is_hist(c) and (_is_file(c) or _raw(c) or any(f == 2 for f, fs in c[2])):
             # (a log::Log-backed appender is, for the model, an appender that succeeds)
             c = [c[0], c[1], [[0 if f == 2 else f, [[1, x[1]] if x[0] == 2 else x for x in fs]] for f, fs in c[2]], c[3]]
-            ln = vc.show(c)
+            ln = vc.show(c)        # (4 components: a file-declared case is, for the model, the plain case)
         out.append(ln)
     return out
 
@@ -182,7 +201,7 @@ def _has_panic(call):
 def nontrivial(c):
     if _is_hist(c):
         return c[4] == 1 or any(k[6] or _has_panic(k) for k in c[3])
-    nl, L, apps, att = c
+    nl, L, apps, att = c[:4]
     return L <= nl and any(len(apps[i][1]) > 0 for i in att)
 
 
@@ -190,7 +209,7 @@ def classify(c):
     if _is_hist(c):
         n = sum(_ncalls(k) for k in c[3])
         return "history mode=%d calls=%s panic=%s" % (c[4], n if n < 4 else "4+", any(_has_panic(k) for k in c[3]))
-    nl, L, apps, att = c
+    nl, L, apps, att = c[:4]
     return "apps=%d attached=%d" % (len(apps), len(att))
 
 
@@ -208,7 +227,7 @@ def describe(c):
                               for f, fs in c[1]],
                 "nodes": [{"level": n[0], "attached": n[1]} for n in c[2]],
                 "top_level_calls (issued_by ignored)": [_dcall(k) for k in c[3]]}
-    nl, L, apps, att = c
+    nl, L, apps, att = c[:4]
     return {"node_level": nl, "record_level": L, "attached": att,
             "appenders": [{"kind": {0: "succeeds", 1: "fails", 2: "log::Log value, enabled()=false"}.get(f, f), "filters": [names[x[1]] if x[0] == 0 else "Threshold(%d)" % x[1] for x in fs]}
                           for f, fs in apps]}
